@@ -27,7 +27,10 @@ TECHNIQUE = "deterministic simulation: invariant monitoring on delivered snapsho
 
 WATCHES = ("depth", "ctx", "out", "[depth, ctx]", "[ctx, depth]", "{'w': depth}", "{'v': ctx}", "(depth, 1)", "(ctx, 2)",
            "str(depth) + 'x'", "str(depth) + 'y'", "list(ctx)", "dict(ctx)", "G_HOST", "P(1, 2)", "P(3, 4)",
-           "depth / 4", "depth * 1.5", "depth / 8", "G_HOST / 3", "float(depth) + 0.25", "depth + 100000", "G_HOST * 7")
+           "depth / 4", "depth * 1.5", "depth / 8", "G_HOST / 3", "float(depth) + 0.25", "depth + 100000", "G_HOST * 7",
+           # a registry of awkward values that only watches reach - as a whole, member by member, and wrapped again
+           "G_REG", "G_REG['job']", "G_REG['n']", "[G_REG['job'], G_REG['ok']]", "G_REG['ok']", "G_REG['len']",
+           "G_REG['all']", "(G_REG['len'], G_REG['n'])")
 
 
 def generate(seed, tier):
